@@ -181,3 +181,22 @@ pub fn const_values() {
     assert!(tr::LOG2_E.to_bits() == 12102203 && tr::E.to_bits() == 22802600);
 }
 
+
+// tan on a second, wider type (thorough): |x| <= 100 and |x - k*pi| <= atan(64) - 2^-10 for some integer k, in I32F32 units
+#[cfg(kani)]
+#[kani::proof]
+#[kani::unwind(70)]
+pub fn tan_i32f32() {
+    let b: i64 = kani::any();
+    kani::assume(b >= -(100i64 << 32) && b <= (100i64 << 32));
+    let k: i64 = kani::any();
+    kani::assume(k >= -32 && k <= 32);
+    // pi * 2^32 = 13493037704.5, atan(64) * 2^32 = 6679415448.8
+    let centre_lo = k * 13493037704 - if k >= 0 { 0 } else { -k };
+    let centre_hi = k * 13493037705;
+    let half = 6679415448i64 - (1 << 22) - 64;
+    kani::assume(b >= core::cmp::max(centre_lo, centre_hi) - half && b <= core::cmp::min(centre_lo, centre_hi) + half);
+    hk::reset_ticks();
+    let _y = tr::tan(I32F32::from_bits(b));
+    assert!(hk::ticks() <= BOUND_64);
+}
